@@ -75,9 +75,12 @@ def grammar(tier):
 class Run:
     """One execution of a program on the real code, with ghost logging."""
 
-    def __init__(self, program):
+    def __init__(self, program, mode=0):
         self.program = program
+        self.mode = mode      # 0: one channel; 1/2: the two handlers of a type listen on different channels and the event is
+        #                       fired to both, in the order (cx, cy) / (cy, cx) - handler priority must still decide the order
         h_a, h_b, h_c, externals, mid = program
+        self.split = {}
         self.m = Manager()
         self.log = []        # ('fire', eid, typ, prio, pass_no, by) | ('h', eid, hprio) | ('stopcall', eid, hprio)
         self.depth = 0
@@ -88,10 +91,12 @@ class Run:
         self.current = None
         nxt = {'A': 'B', 'B': 'C', 'C': None}
         for typ, hs in (('A', h_a), ('B', h_b), ('C', h_c)):
+            self.split[typ] = bool(self.mode and len(hs) == 2)
             for i, (hp, body) in enumerate(hs):
-                self.m.addHandler(self.make_handler(typ, i, hp, body, nxt[typ]))
+                chan = ('cx', 'cy')[i] if self.split[typ] else None
+                self.m.addHandler(self.make_handler(typ, i, hp, body, nxt[typ], chan))
 
-    def make_handler(self, typ, i, hp, body, nxt):
+    def make_handler(self, typ, i, hp, body, nxt, chan=None):
         run = self
 
         def fn(self, event):
@@ -106,7 +111,7 @@ class Run:
             run.depth -= 1
 
         fn.__name__ = 'gh_%s_%d' % (typ, i)
-        return handler(typ, priority=hp)(fn)
+        return handler(typ, priority=hp, channel=chan)(fn) if chan else handler(typ, priority=hp)(fn)
 
     def fire(self, typ, prio, by=None):
         e = Event.create(typ)
@@ -114,7 +119,11 @@ class Run:
         self.events[e.eid] = e
         self.meta[e.eid] = (typ, prio, e.eid)
         self.log.append(('fire', e.eid, typ, prio, self.passno, by))
-        self.m.fire(e, priority=prio)
+        if self.split.get(typ):
+            chans = ('cx', 'cy') if self.mode == 1 else ('cy', 'cx')
+            self.m.fire(e, *chans, priority=prio)
+        else:
+            self.m.fire(e, priority=prio)
         return e
 
     def execute(self):
@@ -220,8 +229,8 @@ def judge(program, log, maxdepth, quiescent):
     return bad, nontrivial
 
 
-def run_one(program):
-    r = Run(program)
+def run_one(program, mode=0):
+    r = Run(program, mode)
     log = r.execute()
     return log, r.maxdepth, r.quiescent
 
@@ -264,6 +273,21 @@ def _work(part, nparts, payload):
             st.sample({'program': program_json(program), 'log': [list(e) for e in log][:40]})
         for kind, text in bad:
             st.fail(kind, text, program_json(program))
+    # multi-channel family: reduced grammar, the two handlers of a type on different channels
+    for mode in (1, 2):
+        space = itertools.product([h for h in h_a if len(h) == 2], [h for h in h_b if len(h) == 2][::3], h_c[-1:],
+                                  [x for x in exts if len(x) <= 2][::2], mids[:2])
+        for i, program in enumerate(itertools.islice(space, part, None, nparts)):
+            log, maxdepth, quiescent = run_one(program, mode)
+            st.executions += 1
+            st.counters['multi_channel_programs'] += 1
+            st.transitions += sum(1 for e in log if e[0] == 'h')
+            bad, nontrivial = judge(program, log, maxdepth, quiescent)
+            st.outcome(('mc', mode, tuple(e for e in log if e[0] in ('h', 'pass'))))
+            st.interesting(('mc', mode, program))
+            for kind, text in bad:
+                st.fail('multichannel:' + kind, text + ' [handlers on channels cx/cy, fired to %s]' % (('cx,cy') if mode == 1 else 'cy,cx'),
+                        dict(program_json(program), mode=mode))
     st.states = len(st.outcomes)
     return st
 
@@ -277,7 +301,7 @@ def run(tier, seed, workers):
     st = core.parallel(_work, (tier, seed), workers, nparts=workers * 4)
     if l1 != l2:
         st.selfcheck_errors.append('determinism: same program gave two different logs')
-    if st.executions != total_programs:
+    if st.executions - st.counters['multi_channel_programs'] != total_programs:
         st.selfcheck_errors.append('enumeration: executed %d of %d programs' % (st.executions, total_programs))
     st.states = len(st.outcomes)
     st.bounds = {'handler_sets_A': len(h_a), 'handler_sets_B': len(h_b), 'handler_sets_C': len(h_c),
@@ -292,7 +316,7 @@ def run(tier, seed, workers):
 
 def replay(witness):
     program = program_from_json(witness)
-    log, maxdepth, quiescent = run_one(program)
+    log, maxdepth, quiescent = run_one(program, witness.get('mode', 0))
     bad, _ = judge(program, log, maxdepth, quiescent)
     text = 'program: %r\nlog:\n  %s\n' % (program, '\n  '.join(map(repr, log)))
     text += ''.join('VIOLATED: %s: %s\n' % b for b in bad) or 'all order constraints hold\n'
